@@ -818,6 +818,24 @@ func (g *Gen) genItem(depth int) *Ast {
 	return &Ast{K: "text", Text: g.marker()}
 }
 
+// genTailLoop: a counter loop whose iteration ends with a lazybreak and a print inside one if
+// block; placed last in a template, a write fault at that print is the last event of the render.
+func (g *Gen) genTailLoop() *Ast {
+	r := g.r
+	a := &Ast{K: "cloop", Var: g.newVar("i"), Init: "0", InitLit: true, Op: "<", Lim: fmt.Sprint(2 + r.Intn(3)), LimLit: true, Step: "++"}
+	fire := fmt.Sprint(r.Intn(2))
+	blk := &Ast{K: "if", Cond: &ACond{L: a.Var, Op: "==", R: fire, RLit: true}, Then: []*Ast{{K: "lazybreak"}, {K: "text", Text: g.marker()}}}
+	if r.Chance(30) {
+		blk.Then = append(blk.Then, &Ast{K: "print", Path: a.Var})
+	}
+	a.Body = []*Ast{{K: "text", Text: g.marker()}, {K: "print", Path: a.Var}, blk}
+	if g.budget < 8 {
+		g.budget = 8
+	}
+	g.tag("tail:lazy-print-in-if")
+	return a
+}
+
 // genLoopCond prefers a condition on a loop variable in scope (so that it fires at some iteration).
 func (g *Gen) genLoopCond() *ACond {
 	r := g.r
@@ -844,10 +862,16 @@ func (g *Gen) newVar(prefix string) string {
 // every placement, and some interactions need two instructions in one iteration.
 func (g *Gen) loopCombos(body []*Ast, depth int) []*Ast {
 	r := g.r
-	if g.noBreak || !g.p.BreakN || !r.Chance(30) {
+	if g.noBreak || !g.p.BreakN || !r.Chance(35) {
 		return body
 	}
-	mk := func(k string, n int) *Ast { return &Ast{K: k, N: n, Cond: g.genLoopCond()} }
+	mk := func(k string, n int) *Ast {
+		a := &Ast{K: k, N: n}
+		if r.Chance(55) {
+			a.Cond = g.genLoopCond()
+		}
+		return a
+	}
 	switch r.Intn(4) {
 	case 0:
 		// lazybreak, then a continue later in the same iteration
